@@ -809,7 +809,34 @@ func (*c07Prop) Run(cc Case) (v Verdict) {
 		if s.Kind == "parse" || s.Kind == "eval" {
 			ctx.EnableTransformation()
 			ctx.EnableStaticCheck()
-			n, _ := parsley.Parse(ctx, b.Root)
+			// the root parser runs behind a pass-through recorder: the monitor judges the
+			// tree BEFORE Transform / StaticCheck walk it (a corrupted tree may be cyclic)
+			type stopStep struct{}
+			var n parsley.Node
+			func() {
+				defer func() {
+					if r := recover(); r != nil {
+						if _, ok := r.(stopStep); !ok {
+							panic(r)
+						}
+					}
+				}()
+				rec := parser.Func(func(ctx *parsley.Context, lrc data.IntMap, pos parsley.Pos) (parsley.Node, data.IntSet, parsley.Error) {
+					rn, cp, err := b.Root.Parse(ctx, lrc, pos)
+					m.checkAll()
+					if m.viol == nil && cyclicTree(rn) {
+						m.viol = &c07Violation{class: "frozen:children", detail: "the tree returned by the root parser contains a node that is its own descendant: children slices of returned nodes were rewritten"}
+					}
+					if m.viol != nil {
+						panic(stopStep{})
+					}
+					return rn, cp, err
+				})
+				n, _ = parsley.Parse(ctx, rec)
+			}()
+			if m.viol != nil {
+				break
+			}
 			m.track(n)
 			m.checkAll()
 			v.Probes["requests:"+s.Kind]++
@@ -1007,4 +1034,42 @@ func scribbleValue(x interface{}) {
 		}
 		v["scribbled"] = true
 	}
+}
+
+// cyclicTree: some pointer node is reachable from itself through Children() / list elements.
+func cyclicTree(root parsley.Node) bool {
+	onPath := map[interface{}]bool{}
+	budget := 200000
+	var walk func(n parsley.Node) bool
+	walk = func(n parsley.Node) bool {
+		budget--
+		if n == nil || budget < 0 {
+			return false
+		}
+		switch x := n.(type) {
+		case ast.NodeList:
+			for _, e := range x {
+				if walk(e) {
+					return true
+				}
+			}
+			return false
+		case parsley.NonTerminalNode:
+			if !isPtrNode(n) {
+				return false
+			}
+			if onPath[n] {
+				return true
+			}
+			onPath[n] = true
+			for _, k := range x.Children() {
+				if walk(k) {
+					return true
+				}
+			}
+			delete(onPath, n)
+		}
+		return false
+	}
+	return walk(root)
 }
